@@ -14,6 +14,24 @@ SPEC = dict(
     configs={"quick": ["assert", "boostmp"], "thorough": ["assert", "boostmp", "gmpxx"]},
     corr_all_configs=True,
     theorems=[
+        "SymVerif.C43.fdiv_qr",
+        "SymVerif.C43.fdiv_q",
+        "SymVerif.C43.fdiv_r",
+        "SymVerif.C43.cdiv_q",
+        "SymVerif.C43.tdiv_qr",
+        "SymVerif.C43.gcdext_bezout",
+        "SymVerif.C43.gcdext_spec_bezout",
+        "SymVerif.C43.invert",
+        "SymVerif.C43.invert_meaning",
+        "SymVerif.C43.invert_fails_iff",
+        "SymVerif.C43.newton_root",
+        "SymVerif.C43.iroot_floor",
+        "SymVerif.C43.root",
+        "SymVerif.C43.root_repair_same",
+        "SymVerif.C43.sqrt",
+        "SymVerif.C43.rootrem",
+        "SymVerif.C43.sqrtrem",
+        "SymVerif.C43.perfect_square",
     ],
     rule="op lines `mp <fn> <args>` (one call of a backend-neutral mp_* function / integer_class operator) and "
          "`work <family> <k>` (deterministic exact workload through ntheory, Rational, expand, polynomials, "
